@@ -146,7 +146,8 @@ pub fn core_matches(d: &VerifDump, p: &Pos) -> Result<(), String> {
         return Err(format!("castling rights differ: engine {:04b} vs model {:04b} (bits qkQK)", r, p.rights));
     }
     let want = p.engine_ep_file();
-    if e != want {
+    // any value >= 8 means "no en-passant opportunity" (that is how every reader of the field treats it)
+    if e.min(8) != want {
         return Err(format!("en-passant file differs: engine {} vs model {} (8 = none)", e, want));
     }
     Ok(())
